@@ -393,3 +393,113 @@ pub fn group_by_sec(rows: &[HRow]) -> BTreeMap<String, Vec<(usize, HRow)>> {
     for (i, r) in rows.iter().enumerate() { m.entry(r.sec.clone()).or_default().push((i, r.clone())); }
     m
 }
+
+// ------------------------------------------------------------------------------------------
+// Window scenarios (C02/C03/C15): one anchor loss sale with events at boundary-weighted offsets
+// ------------------------------------------------------------------------------------------
+#[derive(Clone, Debug)]
+pub struct ScenParams {
+    pub afs: Vec<&'static str>,
+    pub max_events: usize,
+    pub splits: bool,
+    pub roc: bool,
+    pub usd: bool,
+    /// force the first event into this (offset, before-anchor-in-file, buyer affiliate index) cell
+    pub cell: Option<(i64, bool, usize)>,
+    pub tame_numbers: bool,
+}
+
+pub const OFFSETS: [i64; 15] = [-61, -32, -31, -30, -29, -15, -1, 0, 1, 15, 29, 30, 31, 32, 61];
+
+pub fn build_scenario(head: &Intent, pre: &[Intent], events: &[Intent], p: &ScenParams) -> Built {
+    let mut tags = vec![];
+    let sec = "FOO";
+    let d0 = pick(head.date_off, &[ymd(2020, 6, 15), ymd(2019, 12, 31), ymd(2020, 1, 1), ymd(2021, 1, 15), ymd(2020, 3, 1), ymd(2016, 12, 30), ymd(2024, 2, 29), ymd(2022, 12, 15)]);
+    let nafs = 1 + ((head.af as usize * p.afs.len()) >> 16);
+    let afs: Vec<&str> = p.afs[..nafs].to_vec();
+    let global_splits = head.flag % 2 == 0;
+    // timeline entries: (offset, phase, seq, intent, kind) ; phase 0 = before anchor in file, 1 = anchor, 2 = after
+    #[derive(Clone)]
+    struct E { off: i64, phase: u8, seq: usize, it: Intent, kind: u8 } // kind: 0 pre-buy, 1 anchor, 2 event
+    let mut tl: Vec<E> = vec![];
+    for (i, it) in pre.iter().enumerate() { tl.push(E { off: -(62 + (it.date_off as i64 % 60)), phase: 0, seq: i, it: it.clone(), kind: 0 }); }
+    tl.push(E { off: 0, phase: 1, seq: 0, it: head.clone(), kind: 1 });
+    for (i, it) in events.iter().take(p.max_events).enumerate() {
+        let (off, before) = match (&p.cell, i) { (Some((o, b, _)), 0) => (*o, *b), _ => (pick(it.date_off, &OFFSETS), it.flag % 2 == 0) };
+        let phase = if off < 0 { 0 } else if off > 0 { 2 } else if before { 0 } else { 2 };
+        tl.push(E { off, phase, seq: i, it: it.clone(), kind: 2 });
+    }
+    tl.sort_by_key(|e| (e.off, e.phase, e.kind, e.seq));
+    let mut st: BTreeMap<String, AfState> = BTreeMap::new();
+    let mut rows: Vec<HRow> = vec![];
+    let rate_tab = ["1.3", "1.2345", "0.75"];
+    for e in &tl {
+        let it = &e.it;
+        let d = d0 + Duration::days(e.off);
+        let af_ix = match (&p.cell, e.kind, e.seq) { (Some((_, _, a)), 2, 0) => (*a).min(afs.len() - 1), _ => (it.af as usize * afs.len()) >> 16 };
+        let mut af_sp = afs[af_ix].to_string();
+        let (mut af_id, mut reg) = affiliate_id(&af_sp);
+        let mut kind = match e.kind {
+            0 => Act::Buy,
+            1 => Act::Sell,
+            _ => if p.cell.is_some() && e.seq == 0 { Act::Buy } else { wpick(it.kind, &[(6u32, Act::Buy), (4, Act::Sell), (if p.splits { 2 } else { 0 }, Act::Split), (if p.roc { 1 } else { 0 }, Act::Roc)]) },
+        };
+        if e.kind == 1 && (reg || !st.get(&af_id).map(|a| a.bal.floor_dp(10).is_pos()).unwrap_or(false)) {
+            // anchor must be sold by a non-registered holder: pick the first one that holds shares
+            if let Some((id, _)) = st.iter().find(|(id, a)| !id.ends_with("(R)") && a.bal.floor_dp(10).is_pos()) { af_id = id.clone(); reg = false; af_sp = afs.iter().find(|x| affiliate_id(x).0 == af_id).map(|x| x.to_string()).unwrap_or_default(); } else { kind = Act::Buy; }
+        }
+        let a = st.get(&af_id).cloned().unwrap_or_default();
+        let hold10 = a.bal.floor_dp(10);
+        if kind == Act::Sell && !hold10.is_pos() { kind = Act::Buy; }
+        if kind == Act::Roc && (reg || !a.bal.is_pos()) { kind = Act::Buy; }
+        let lag = wpick(it.settle, &[(3u32, 0i64), (2, 1), (3, 2)]);
+        let mut r = HRow::new(sec, d - Duration::days(lag), d, kind);
+        r.af = af_sp.clone();
+        let usd = p.usd && it.cur % 4 == 0 && matches!(kind, Act::Buy | Act::Sell);
+        if usd { r.cur = "USD".into(); r.rate = pick(it.price.wrapping_mul(7), &rate_tab).to_string(); }
+        let mrate = if usd { Rat::parse(&r.rate).unwrap() } else { Rat::one() };
+        match kind {
+            Act::Buy => {
+                r.shares = if p.tame_numbers { pick(it.qty, &["10", "6", "30", "12", "60", "120"]) } else { pick(it.qty, &["10", "1", "3", "7", "100", "25", "0.5", "3.3333333333", "12.3456", "33", "2"]) }.to_string();
+                r.price = if p.tame_numbers { pick(it.price, &["10", "12", "6", "30"]) } else { pick(it.price, &["10", "9.99", "3.3333333333", "19.99", "100", "0.5", "7"]) }.to_string();
+                if it.comm % 3 == 0 { r.comm = pick(it.comm, &["4.95", "1", "9.99"]).to_string(); }
+            }
+            Act::Sell => {
+                let frac = if e.kind == 1 { wpick(it.frac, &[(3u32, 0u8), (4, 1), (3, 2), (2, 3), (2, 5)]) } else { wpick(it.frac, &[(4u32, 0u8), (3, 1), (2, 2), (2, 3), (1, 5)]) };
+                let dp = if p.tame_numbers { 0 } else { 4 };
+                let q = match frac {
+                    0 => hold10.clone(),
+                    1 => a.bal.div(&Rat::from_i64(2)).floor_dp(dp),
+                    2 => a.bal.div(&Rat::from_i64(3)).floor_dp(if p.tame_numbers { 0 } else { 10 }),
+                    3 => Rat::one().min(&hold10),
+                    _ => a.bal.mul(&Rat::ratio(1 + (it.qty % 97) as i64, 100)).floor_dp(dp).min(&hold10),
+                };
+                let q = if q.is_pos() { q } else { hold10.clone() };
+                r.shares = q.to_decimal_string(10).unwrap();
+                let per_share = if reg || !a.bal.is_pos() { Rat::from_i64(10) } else { a.acb.div(&a.bal).div(&mrate) };
+                let rel = if e.kind == 1 { wpick(it.rel, &[(8u32, 0u8), (2, 1), (1, 3)]) } else { wpick(it.rel, &[(5u32, 0u8), (1, 1), (3, 3)]) };
+                let px = match rel { 0 => per_share.mul(&Rat::ratio(10 + (it.price % 80) as i64, 100)), 1 => per_share.sub(&Rat::ratio(1, 100)).max(&Rat::zero()), _ => per_share.mul(&Rat::ratio(110 + (it.price % 100) as i64, 100)) };
+                r.price = dp_string(&px, if p.tame_numbers { 2 } else { 4 });
+                if it.comm % 4 == 0 { r.comm = pick(it.comm, &["4.95", "1"]).to_string(); }
+            }
+            Act::Roc => { let per = a.acb.div(&a.bal); r.price = dp_string(&per.mul(&Rat::ratio(1, 10)), 6); }
+            Act::Split => {
+                let ratio = if p.tame_numbers { pick(it.split, &["2-for-1", "3-for-1", "1.0-for-2.0", "3-for-2", "1.0-for-3.0", "2.0-for-3.0"]) } else { pick(it.split, &["2-for-1", "3-for-1", "1.0-for-2.0", "3-for-2", "1.0-for-3.0", "2.0-for-3.0", "10-for-1", "1.5-for-1", "7-for-3", "1.0-for-4.0"]) };
+                r.split = ratio.to_string(); r.td = d;
+                if global_splits { r.af = String::new(); } else if r.af.trim().is_empty() { r.af = "Default".into(); }
+            }
+            Act::Sfla => {}
+        }
+        let m = r.to_mrow();
+        match kind {
+            Act::Buy => { let e2 = st.entry(af_id.clone()).or_default(); e2.bal = e2.bal.add(&m.shares); if !reg { e2.acb = e2.acb.add(&m.shares.mul(&m.price).mul(&m.rate)).add(&m.comm.mul(&m.comm_rate)); } }
+            Act::Sell => { let e2 = st.entry(af_id.clone()).or_default(); let cost = if e2.bal.is_pos() { e2.acb.mul(&m.shares).div(&e2.bal) } else { Rat::zero() }; e2.bal = e2.bal.sub(&m.shares); if !reg { e2.acb = e2.acb.sub(&cost); } }
+            Act::Roc => { let e2 = st.entry(af_id.clone()).or_default(); e2.acb = e2.acb.sub(&m.price.mul(&e2.bal).mul(&m.rate)).max(&Rat::zero()); }
+            Act::Split => { let f = m.split.0.div(&m.split.1); if r.af.is_empty() { for e2 in st.values_mut() { e2.bal = e2.bal.mul(&f); } } else { let e2 = st.entry(af_id.clone()).or_default(); e2.bal = e2.bal.mul(&f); } }
+            Act::Sfla => {}
+        }
+        if e.kind == 1 { tags.push(format!("anchor-row:{}", rows.len())); }
+        rows.push(r);
+    }
+    Built { rows, opening: vec![], tags }
+}
